@@ -19,6 +19,7 @@ import (
 	"time"
 
 	"github.com/nyaruka/gocommon/i18n"
+	"github.com/nyaruka/gocommon/urns"
 	"github.com/nyaruka/gocommon/uuids"
 	"github.com/nyaruka/goflow/assets"
 	"github.com/nyaruka/goflow/assets/static"
@@ -187,6 +188,14 @@ var singleText = map[string]bool{"text": true, "name": true, "category": true, "
 func buildAssets(c *config) []byte {
 	loc := map[string]map[string]map[string][]string{}
 	vloc := map[string]map[string]map[string][]string{}
+	tloc := map[string]map[string]map[string][]string{}
+	// with EvalEmpty every non-empty text of the message (base and translations) is an expression evaluating to ""
+	ee := func(t string) string {
+		if c.EvalEmpty && t != "" {
+			return emptyExpr
+		}
+		return t
+	}
 	for _, p := range props {
 		for li, l := range trLangs {
 			arr := c.Tr[p.name][li]
@@ -194,6 +203,20 @@ func buildAssets(c *config) []byte {
 				continue
 			}
 			lc := langCodes[l]
+			if p.item == tplSendUUID {
+				if tloc[lc] == nil {
+					tloc[lc] = map[string]map[string][]string{}
+				}
+				tloc[lc][p.item] = map[string][]string{p.prop: arr}
+				continue
+			}
+			if p.name == "text" {
+				arr2 := make([]string, len(arr))
+				for i, t := range arr {
+					arr2[i] = ee(t)
+				}
+				arr = arr2
+			}
 			if p.voice {
 				if vloc[lc] == nil {
 					vloc[lc] = map[string]map[string][]string{}
@@ -227,9 +250,9 @@ func buildAssets(c *config) []byte {
 			map[string]any{
 				"uuid": nodeUUID,
 				"actions": []any{
-					map[string]any{"uuid": sendUUID, "type": "send_msg", "text": c.BaseText, "attachments": c.BaseAtts, "quick_replies": c.BaseQRs},
+					map[string]any{"uuid": sendUUID, "type": "send_msg", "text": ee(c.BaseText), "attachments": c.BaseAtts, "quick_replies": c.BaseQRs},
 					map[string]any{"uuid": setresUUID, "type": "set_run_result", "name": "sr", "value": "v", "category": "Cat"},
-					map[string]any{"uuid": bcastUUID, "type": "send_broadcast", "text": c.BaseText, "attachments": c.BaseAtts, "quick_replies": c.BaseQRs,
+					map[string]any{"uuid": bcastUUID, "type": "send_broadcast", "text": ee(c.BaseText), "attachments": c.BaseAtts, "quick_replies": c.BaseQRs,
 						"contacts": []any{map[string]any{"uuid": "77777777-7777-4777-8777-777777777771", "name": "Other"}}},
 					map[string]any{"uuid": emailUUID, "type": "send_email", "addresses": []string{"a@x.io"}, "subject": "subj", "body": "body"},
 				},
@@ -263,7 +286,17 @@ func buildAssets(c *config) []byte {
 			"exits":   []any{map[string]any{"uuid": exitVoiceUUID}},
 		}},
 	}
-	flowList := []any{flow, voice}
+	tpl := map[string]any{
+		"uuid": tplFlowUUID, "name": "C18 template", "spec_version": "13.6.1", "language": langCodes[baseLang], "type": "messaging",
+		"localization": tloc,
+		"nodes": []any{map[string]any{
+			"uuid": tplNodeUUID,
+			"actions": []any{map[string]any{"uuid": tplSendUUID, "type": "send_msg", "text": "tpl",
+				"template": map[string]any{"uuid": templateUUID, "name": "greet"}, "template_variables": c.BaseVars}},
+			"exits": []any{map[string]any{"uuid": exitTplUUID}},
+		}},
+	}
+	flowList := []any{flow, voice, tpl}
 	if c.ChildLang >= 0 {
 		// the parent localizes something first (a message), enters the child, and continues with the nodes above
 		nodes := flow["nodes"].([]any)
@@ -286,7 +319,16 @@ func buildAssets(c *config) []byte {
 		}
 		flowList = append(flowList, child)
 	}
-	b, err := json.Marshal(map[string]any{"flows": flowList})
+	chRef := map[string]any{"uuid": channelUUID, "name": "WA"}
+	b, err := json.Marshal(map[string]any{"flows": flowList,
+		"fields":   []any{map[string]any{"uuid": "aaaaaaaa-aaaa-4aaa-8aaa-aaaaaaaaaaa1", "key": "caption", "name": "Caption", "type": "text"}},
+		"channels": []any{map[string]any{"uuid": channelUUID, "name": "WA", "address": "+12065550000", "schemes": []string{"tel"}, "roles": []string{"send", "receive"}}},
+		"templates": []any{map[string]any{"uuid": templateUUID, "name": "greet", "translations": []any{map[string]any{
+			"channel": chRef, "locale": "eng-US",
+			"components": []any{map[string]any{"name": "body", "type": "body/text", "content": "Hi {{1}} and {{2}}", "variables": map[string]int{"1": 0, "2": 1}}},
+			"variables":  []any{map[string]any{"type": "text"}, map[string]any{"type": "text"}},
+		}}}},
+	})
 	if err != nil {
 		panic(err)
 	}
@@ -306,6 +348,9 @@ type observed struct {
 	Say         *ivr       `json:"say_msg"`    // ivr_created of say_msg (nil = skipped)
 	Play        *ivr       `json:"play_audio"` // ivr_created of play_audio (nil = skipped)
 	Errors      int        `json:"error_events"`
+	TplVars     []string   `json:"template_variables"` // values of the templating variables of the templated message
+	ForContact  []bcastTr  `json:"broadcast_for_contact"` // BroadcastTranslations.ForContact for a recipient of each language (Lang = recipient's language; the locale's language is in Locale)
+	ForLocale   []int      `json:"broadcast_for_contact_locale"`
 }
 
 type ivr struct {
@@ -409,6 +454,9 @@ func run(c *config) (*observed, error) {
 	if err := runVoice(c, env, sa, eng, o); err != nil {
 		return nil, err
 	}
+	if err := runTemplate(c, env, sa, eng, o); err != nil {
+		return nil, err
+	}
 	if o.Bcast == nil {
 		return nil, fmt.Errorf("no broadcast_created event")
 	}
@@ -487,6 +535,49 @@ func runVoice(c *config, env envs.Environment, sa flows.SessionAssets, eng flows
 	}
 	if nerr != missing {
 		return fmt.Errorf("voice flow: %d error events, %d skipped actions", nerr, missing)
+	}
+	return nil
+}
+
+// the template flow: a send_msg built from a channel template whose variables are localized
+func runTemplate(c *config, env envs.Environment, sa flows.SessionAssets, eng flows.Engine, o *observed) (err error) {
+	defer func() {
+		if r := recover(); r != nil {
+			err = fmt.Errorf("PANIC in templated send_msg: %v", r)
+		}
+	}()
+	flow, err := sa.Flows().Get(tplFlowUUID)
+	if err != nil {
+		return err
+	}
+	contact, err := flows.NewContact(sa, flows.ContactUUID(uuids.NewV4()), flows.ContactID(10), "5", code(c.effLang()),
+		flows.ContactStatusActive, nil, time.Date(2020, 1, 1, 0, 0, 0, 0, time.UTC), nil, []urns.URN{"tel:+12065551212"}, nil, nil, nil, assets.PanicOnMissing)
+	if err != nil {
+		return err
+	}
+	trigger := triggers.NewBuilder(env, flow.Reference(false), contact).Manual().Build()
+	_, sprint, err := eng.NewSession(sa, trigger)
+	if err != nil {
+		return err
+	}
+	n := 0
+	for _, e := range sprint.Events() {
+		switch ev := e.(type) {
+		case *events.MsgCreatedEvent:
+			n++
+			if ev.Msg.Templating() == nil {
+				return fmt.Errorf("message of the template flow has no templating")
+			}
+			o.TplVars = []string{}
+			for _, v := range ev.Msg.Templating().Variables {
+				o.TplVars = append(o.TplVars, v.Value)
+			}
+		case *events.ErrorEvent:
+			return fmt.Errorf("template flow: error event: %s", ev.Text)
+		}
+	}
+	if n != 1 {
+		return fmt.Errorf("template flow: %d msg_created events", n)
 	}
 	return nil
 }
